@@ -117,6 +117,14 @@ def project(log, desc, layer="L0", wake=False):
         elif k == "acq":
             L = e[2]
             held[(t, L)] = held.get((t, L), 0) + 1
+            cm = top(t)
+            if cm is not None and cm["kind"] == "cb" and cm.get("state") == "mark" and flock.get(L) == cm.get("mark_f"):
+                # `_me_delegate_cancelled()`: the callback's thread takes the future's lock - re-entrantly when it is the thread
+                # that is itself inside cancel() of that future (the callback was run inline by its delegate.cancel())
+                inl = any(x["kind"] == "cancel" and x["f"] == cm["mark_f"] for x in stk.get(t, []))
+                out.append("A cbMark %d %d %d" % (cm["mark_f"], cm["d"], 1 if inl else 0))
+                cm["state"] = "done"
+                continue
             if held[(t, L)] > 1:
                 continue
             if t in pend and L in flock and (pend[t][0] is None or flock.get(L) == pend[t][0]):
@@ -146,7 +154,8 @@ def project(log, desc, layer="L0", wake=False):
                 elif c is not None and c["kind"] == "cb":
                     if c["state"] == "cancelled":
                         out.append("A cbCancelled %d" % c["d"])
-                        c["state"] = "done"
+                        c["state"] = "mark"
+                        c["mark_f"] = fut_of_d.get(c["d"])
                     elif c["state"] == "retry":
                         out.append("A cbRetry %d" % c["d"])
                         wout.append("A add %d %d" % (fut_of_d.get(c["d"], 0), now_t + int(sleep_of_d.get(c["d"], 0))))
@@ -228,14 +237,16 @@ def project(log, desc, layer="L0", wake=False):
         elif k == "dcancel>" and e[2] in did:
             r = dcancel_ret.get(i)
             c = top(t)
+            already = e[2] in cancelled_dels      # cancel() of an already cancelled future: True, and nothing happens
             if c is not None and c["kind"] == "cancel":
                 c["had_dcancel"] = True
                 out.append("A cancelDel %d %d" % (c["f"], 1 if r else 0))
-            elif r:
+            elif r and not already:
                 out.append("A ddone %d 1" % did[e[2]])
             if r:
                 cancelled_dels.add(e[2])
-            stk.setdefault(t, []).append({"kind": "cb", "d": did[e[2]], "nm": e[2], "state": "cancelled" if r else "done"})
+            stk.setdefault(t, []).append({"kind": "cb", "d": did[e[2]], "nm": e[2],
+                                          "state": "cancelled" if (r and not already) else "done"})
         elif k in ("dcompleted", "daddcb<", "dcancel<") and e[2] in did:
             c = top(t)
             if c is not None and c["kind"] == "cb" and c["nm"] == e[2] and not (k == "daddcb<" and c.get("from") == "other"):
